@@ -58,6 +58,18 @@ CLAIMED = {
    "Part (b): the generated in-process tunnel cases judged for accounting: lifecycle state log with exactly one terminal state (ErrorOccured + text after a fault), per-direction byte counters equal to the relayed payload including early data, recorded connector, live-table membership. The end-to-end histories (access log, /api/history, rotation) are added with the e2e engine.",
    "Trusted: the record is read from the collector list that Context::drop feeds (the same data the access log and /api/history receive).",
    "proptest over tunnel histories, oracle = lifecycle regular expression + counter equality", "§3 C16(b)"),
+ "C14": ("vp-e2e", "fault_enumeration",
+   "Generated stall schedules, each on a fresh real proxy (40 quick / 600 thorough): clients stalled after k bytes of a valid HTTP / SOCKS5 / SOCKS4 / SOCKS5+userpass handshake (k over every offset), tunnels blocked on a consumer that never reads, then API calls (status, live, history, rules GET/POST, metrics, logrotate) issued concurrently with fresh echo tunnels through every listener; everything must complete within 6 s (control phase < 1.5 s, else inconclusive). The hazard is a persistent state (a lock held while a client is silent), so once the stall set is installed a blocking defect shows deterministically.",
+   "Trusted: wall-clock bound of 6 s against a control of milliseconds; stalls inside the TLS or QUIC handshake are not generated.",
+   "generated fault schedules (stall points x API interleavings) against real processes, oracle = bounded completion", "§3 C14"),
+ "C15": ("both", "exploration",
+   "(a) 120 (quick) / 4 000 (thorough) model-based API histories on real proxies: valid and single-defect rule lists (8 defect kinds at generated positions), GET, GET-then-POST-back and probes whose serving connector is identified by the address the origin sees; the model is the list in force. (b) in-process stress of set_rules against concurrent process_request on a 6-thread runtime with two lists whose every mixture is detectable (6 x 2 000 flips quick, 200 x 2 000 thorough). (b) is stress, not schedule enumeration.",
+   "Trusted: the reference decision procedure over the atom grammar; origin-side peer address as connector identity.",
+   "proptest-generated stateful histories vs a list model + multi-thread stress with detectable mixtures", "§3 C15"),
+ "C18": ("vp-inproc", "exploration",
+   "Part (a): 4 000 (quick) / 300 000 (thorough) configuration documents obtained from three bases by tree mutations (delete / retype / duplicate / randomise / rename, targeted path and address replacement), generated load-balancer member graphs and generated scripts as filter / hashBy / log format are run through main()'s loading sequence on the real functions; the result must be Ok or an error with a message within 30 s, never a panic. The real-binary parts (--test vs start-up differential, POST /api/rules with arbitrary JSON, nesting ladder, cyclic load balancers under traffic) are added with the e2e engine.",
+   "Trusted: the re-enactment of main() in the harness (kept line-for-line); access-log paths are redirected into the scratch directory.",
+   "proptest structural mutation fuzzing of configuration trees, oracle = Ok/Err, no panic", "§3 C18(a)"),
 }
 
 NOT_YET = "check not built yet in this session (see DESIGN.md §6 build order); will be claimed once its generator and oracle exist"
@@ -66,6 +78,7 @@ def main():
     checks = []
     for pid in sorted(CLAIMED):
         eng, cat, text, note, tech, ref = CLAIMED[pid]
+        eng = "vp-inproc + vp-e2e" if eng == "both" else eng
         checks.append({
             "property_id": pid,
             "quick_cmd": "./check %s quick" % pid,
